@@ -678,8 +678,8 @@ def corpus_cases():
     return json.load(open(p)) if os.path.exists(p) else []
 
 
-# D30 (known finding, not repaired): an unconnected output pin whose implementation line leaves a fork that has a later output
-# kept by substitute() leaves a `None` gap in the outputs of the copied fork (the model shows the same graph, precondition `0f`)
+# D30 (fixed): an unconnected output pin whose implementation line leaves a fork that has a later output kept by substitute()
+# left a `None` gap in the outputs of the copied fork; the repaired code (and the model) make the outputs dense again
 FORK_GAP_WITNESS = ['n:a:input', 'n:u:CELLX1', 'n:o:output', 'l:0:-:1:-', 'l:1:0:2:-', 'io:0', 'io:2',
                     'sub:1:A,input|F,__fork__|X,INV1|O1,output|O2,output;0.0.1.0|1.0.3.0|1.1.2.0|2.0.4.0;0,4,3']
 
